@@ -35,7 +35,11 @@
      drift:RecoversPersisted a restarted node comes back exactly at the tip pointers of the image (unless the image
                              carries the marker of an interrupted Reset, which is resumed)
      drift:StopKeepsHeights  a clean stop + restart loses nothing
-     drift:DiskPages         page keys on the backend are complete pages below the persisted tip *)
+     drift:DiskPages         page keys on the backend are complete pages below the persisted tip
+     drift:KeepsListBelowTrusted  a node whose database was synchronised from genesis and that gets a
+                             TrustedHeader configured afterwards (step `retrust`) still answers every index it
+                             retained (the code's own test calls the answers below the trusted index unimportant,
+                             so this is model level; the property-level floor of such a node is the trusted index) *)
 EXTENDS TraceIO, FiniteSets, SequencesExt
 
 VARIABLES l,      \* next line
@@ -46,7 +50,7 @@ vars == <<l, cfg, hh, bh, ahh, abh>>
 
 A == INSTANCE HeaderHashes
 
-Init == l = 1 /\ cfg = [page |-> 1, trusted |-> 0, rub |-> FALSE, mtb |-> 0] /\ hh = 0 /\ bh = 0 /\ ahh = 0 /\ abh = 0
+Init == l = 1 /\ cfg = [page |-> 1, trusted |-> 0, rub |-> FALSE, mtb |-> 0, full |-> FALSE] /\ hh = 0 /\ bh = 0 /\ ahh = 0 /\ abh = 0
 
 Segs(o) == ToSet(o.segs)
 FloorC(c, o) == A!Floor(c.trusted, c.rub, c.mtb, o.bh)
@@ -65,6 +69,7 @@ ObsDriftC(c, o) ==
     LET st == ((o.hh + 1) \div c.page) * c.page IN
     NameIf(o.mem.stored = st /\ o.mem.latest = o.hh + 1 - st, "drift:MemShape")
     \cup NameIf(\A p \in ToSet(o.pages) : p % c.page = 0 /\ p + c.page <= o.dhh + 1, "drift:DiskPages")
+    \cup NameIf(c.full => A!Retained(o.hh, A!Floor(0, c.rub, c.mtb, o.bh), Segs(o)), "drift:KeepsListBelowTrusted")
 ObsDrift(o) == ObsDriftC(cfg, o)
 
 Max2(a, b) == IF a > b THEN a ELSE b
@@ -83,6 +88,12 @@ StepChecks(e) ==
             ELSE NameIf(A!HeightBound(o.hh, o.bh, ahh, abh), "HeightBound") \cup ObsChecks(o) \cup ObsDrift(o)
                  \cup NameIf(e.interrupted \/ (o.hh = hh /\ o.bh = bh), "drift:StopKeepsHeights")
                  \cup NameIf(o.dhh = o.hh /\ o.dbh = o.bh, "drift:FlushPersistsAll")
+      [] e.op = "retrust" ->
+            \* the database was synchronised from genesis; from now on the node is configured with TrustedHeader e.t
+            LET c == [cfg EXCEPT !.trusted = e.t, !.full = TRUE] IN
+            IF ~e.ok THEN {"Restarted"}
+            ELSE NameIf(A!HeightBound(o.hh, o.bh, ahh, abh), "HeightBound") \cup ObsChecksC(c, o) \cup ObsDriftC(c, o)
+                 \cup NameIf(o.hh = hh /\ o.bh = bh, "drift:StopKeepsHeights")
       [] e.op = "crash" ->
             IF ~e.ok THEN {"Restarted"}
             ELSE NameIf(A!HeightBound(o.hh, o.bh, ahh, abh), "HeightBound") \cup ObsChecks(o) \cup ObsDrift(o)
@@ -108,16 +119,16 @@ Step ==
     /\ l' = l + 1
     /\ LET e == TLog[l] IN
        CASE e.event = "init" ->
-              /\ cfg' = [page |-> e.page, trusted |-> e.trusted, rub |-> e.rub, mtb |-> e.mtb]
+              /\ cfg' = [page |-> e.page, trusted |-> e.trusted, rub |-> e.rub, mtb |-> e.mtb, full |-> FALSE]
               /\ hh' = e.obs.hh /\ bh' = e.obs.bh /\ ahh' = e.obs.hh /\ abh' = e.obs.bh
-              /\ LET c == [page |-> e.page, trusted |-> e.trusted, rub |-> e.rub, mtb |-> e.mtb] IN
+              /\ LET c == [page |-> e.page, trusted |-> e.trusted, rub |-> e.rub, mtb |-> e.mtb, full |-> FALSE] IN
                  Report(l, ObsChecksC(c, e.obs) \cup ObsDriftC(c, e.obs), [op |-> "init", world |-> e.world, step |-> 0])
          [] e.event = "step" ->
-              /\ UNCHANGED cfg
+              /\ cfg' = IF e.op = "retrust" /\ e.ok THEN [cfg EXCEPT !.trusted = e.t, !.full = TRUE] ELSE cfg
               /\ IF e.ok /\ ~e.interrupted
                  THEN /\ hh' = e.obs.hh /\ bh' = e.obs.bh
-                      /\ ahh' = IF e.op \in {"stop", "reopen", "crash", "reset"} THEN e.obs.hh ELSE Max2(ahh, e.obs.hh)
-                      /\ abh' = IF e.op \in {"stop", "reopen", "crash", "reset"} THEN e.obs.bh ELSE Max2(abh, e.obs.bh)
+                      /\ ahh' = IF e.op \in {"stop", "reopen", "crash", "reset", "retrust"} THEN e.obs.hh ELSE Max2(ahh, e.obs.hh)
+                      /\ abh' = IF e.op \in {"stop", "reopen", "crash", "reset", "retrust"} THEN e.obs.bh ELSE Max2(abh, e.obs.bh)
                  ELSE UNCHANGED <<hh, bh, ahh, abh>>
               /\ Report(l, StepChecks(e), [op |-> e.op, world |-> e.world, step |-> e.step, before |-> [hh |-> hh, bh |-> bh, ahh |-> ahh, abh |-> abh]])
          [] e.event = "probe" ->
